@@ -122,6 +122,31 @@ def foo(x: R[6, 6], u: R[6]):
         setrow(x[1:4, 2:6], i)
         x[2, 2] = 5.0
 """),
+    ("config_write_read_overwrite", """
+@config
+class CfgW:
+    a: index
+    flag: bool
+
+@proc
+def rdcfg(x: [R][4]):
+    if CfgW.a == 1:
+        x[1] = 1.0
+
+@proc
+def foo(x: R[8], y: R[4]):
+    CfgW.a = 1
+    if CfgW.a == 1:
+        x[0] = 1.0
+    CfgW.a = 2
+    rdcfg(x[0:4])
+    CfgW.a = 1
+    for i in seq(0, 4):
+        if CfgW.a == 1:
+            y[i] = 2.0
+    CfgW.a = 0
+    CfgW.flag = True
+"""),
     ("mult_dim_transposes", """
 @proc
 def foo(n: size, m: size, a: [R][n, m], b: R[n, m], c: R[4]):
@@ -403,6 +428,13 @@ class Search:
         rng = self.ck.rng
         try:
             allc = sched.candidates(p, random.Random(rng.randrange(1 << 30)), configs=cfgs)
+            if tag.startswith("corpus:"):  # sample the argument choices several times for the hand-written corpus
+                seen = {(c[0], c[1]) for c in allc}
+                for _ in range(3):
+                    for c in sched.candidates(p, random.Random(rng.randrange(1 << 30)), configs=cfgs):
+                        if (c[0], c[1]) not in seen:
+                            seen.add((c[0], c[1]))
+                            allc.append(c)
         except Exception as e:  # e.g. a procedure whose body became empty (unroll of a zero-trip loop): nothing to explore
             self.stats["unexplorable"] = self.stats.get("unexplorable", 0) + 1
             return
